@@ -1,6 +1,6 @@
 use crate::diagnostic_emitter::MosResult;
 use crate::impl_request_handler;
-use crate::lsp::{to_location, LspContext, RequestHandler};
+use crate::lsp::{document_path, line_and_offset, to_location, LspContext, RequestHandler};
 use itertools::Itertools;
 use lsp_types::request::{PrepareRenameRequest, Rename};
 use lsp_types::{
@@ -30,13 +30,17 @@ impl RequestHandler<PrepareRenameRequest> for PrepareRenameRequestHandler {
     ) -> MosResult<Option<PrepareRenameResponse>> {
         if let Some(codegen) = &ctx.codegen {
             let codegen = codegen.lock().unwrap();
-            let file_path = &params.text_document.uri.to_file_path().unwrap();
+            let file_path = match document_path(&params.text_document.uri) {
+                Some(path) => path,
+                None => return Ok(None),
+            };
+            let file_path = &file_path;
 
-            let source_line = params.position.line as usize;
-            let source_column = params.position.character as usize;
-
-            if let Some(source_file) = codegen.tree().files.get(file_path) {
-                let line = source_file.file.source_line(source_line);
+            let position = codegen.tree().files.get(file_path).and_then(|source_file| {
+                line_and_offset(&source_file.file, &params.position)
+            });
+            if let Some((line, source_column)) = position {
+                let source_line = params.position.line as usize;
 
                 // Try to find the start of identifier under the cursor
                 let start = line[..source_column]
@@ -66,7 +70,7 @@ impl RequestHandler<PrepareRenameRequest> for PrepareRenameRequestHandler {
                         file_path.to_str().unwrap(),
                         LineCol {
                             line: source_line,
-                            column: source_column,
+                            column: params.position.character as usize,
                         },
                     )
                     .is_empty()
@@ -75,11 +79,11 @@ impl RequestHandler<PrepareRenameRequest> for PrepareRenameRequestHandler {
                     let range = lsp_types::Range {
                         start: lsp_types::Position {
                             line: source_line as u32,
-                            character: start as u32,
+                            character: line[..start].encode_utf16().count() as u32,
                         },
                         end: lsp_types::Position {
                             line: source_line as u32,
-                            character: end as u32,
+                            character: line[..end].encode_utf16().count() as u32,
                         },
                     };
                     return Ok(Some(PrepareRenameResponse::Range(range)));
